@@ -87,6 +87,7 @@ type Contract struct {
 	// propagates <callee> [unless <pred(e)>]: whenever a call of <callee> made by this function returns a non-nil
 	// error e (not excused by the predicate), this function returns a non-nil error. Label = callee name.
 	Propagates []Clause
+	TrackOnly  map[string]bool // `tracks <callee>`: the failed() flag is maintained, no obligation is emitted
 	Iface     bool
 	Src       string
 	Line      int
@@ -147,7 +148,7 @@ func newContractSet() *ContractSet {
 var clauseKeywords = map[string]bool{
 	"func": true, "interface": true, "extern": true, "type": true, "ghost": true, "spec": true, "lemma": true, "syncmap": true,
 	"props": true, "requires": true, "ensures": true, "modifies": true, "nopanic": true, "maypanic": true,
-	"inline": true, "assumed": true, "pure": true, "use": true, "deterministic": true, "noworld": true, "opaque": true, "dispatch": true, "detargs": true, "loop": true, "range": true, "callsite": true, "decreases": true, "propagates": true,
+	"inline": true, "assumed": true, "pure": true, "use": true, "deterministic": true, "noworld": true, "opaque": true, "dispatch": true, "detargs": true, "loop": true, "range": true, "callsite": true, "decreases": true, "propagates": true, "tracks": true,
 }
 
 // ghostWitnessDecl: witness arrays declared by `range n ghost` clauses (name -> key type, value type; string or int)
@@ -517,7 +518,7 @@ func (c *Contract) addClause(kw, rest string) error {
 			return err
 		}
 		c.Ensures = append(c.Ensures, Clause{Label: label, Expr: x, Src: e, Props: props})
-	case "propagates":
+	case "propagates", "tracks":
 		e := rest
 		var props []string
 		if strings.HasPrefix(e, "[") {
@@ -543,6 +544,12 @@ func (c *Contract) addClause(kw, rest string) error {
 			cl.Expr = x
 		}
 		c.Propagates = append(c.Propagates, cl)
+		if kw == "tracks" {
+			if c.TrackOnly == nil {
+				c.TrackOnly = map[string]bool{}
+			}
+			c.TrackOnly[cl.Label] = true
+		}
 	case "modifies":
 		x, err := parser.ParseExpr("f(" + rest + ")")
 		if err != nil {
